@@ -246,21 +246,33 @@ async fn discovered(p: &DomainParticipantAsync, other: &DomainParticipantAsync) 
 }
 
 /// two participants with (domain, tag) pairs on one shared multicast medium; SPDP faults up to the bound
-async fn c17_isolation(ctx: Ctx, d1: i32, d2: i32, tag_same: bool) {
+async fn c17_isolation(ctx: Ctx, d1: i32, d2: i32, tag_mode: u8) {
+    // tag_mode 0: both "tagA"; 1: participant 1 appears as "tagB"; 2: participant 1 appears UNTAGGED to the others (its
+    // PID_DOMAIN_TAG parameter is turned into an ignorable vendor parameter in flight) - added after seeded change C17-2
+    let tag_same = tag_mode == 0;
     // one factory = one domain tag; different tags need two factories, which the single static worker channel does not
     // allow inside one process, so tags are exercised by rewriting the tag parameter in flight
     let f = ctx.factory("tagA", Some(200));
     if !tag_same {
         // PID_DOMAIN_TAG = 0x4014: rewrite "tagA" -> "tagB" in datagrams sent by participant 1
         crate::sim::with(|w| {
-            w.net.rewrite = Some(Box::new(|d| {
+            w.net.rewrite = Some(Box::new(move |d| {
                 if d.src == 1 && d.meta {
                     let mut v = d.bytes.as_ref().clone();
                     let mut hit = false;
                     for i in 0..v.len().saturating_sub(4) {
                         if &v[i..i + 4] == b"tagA" {
-                            v[i + 3] = b'B';
-                            hit = true;
+                            if tag_mode == 2 {
+                                // parameter header = pid (2), length (2), string length (4) before the characters
+                                if i >= 8 && v[i - 8] == 0x14 && v[i - 7] == 0x40 {
+                                    v[i - 8] = 0x01;
+                                    v[i - 7] = 0x80;
+                                    hit = true;
+                                }
+                            } else {
+                                v[i + 3] = b'B';
+                                hit = true;
+                            }
                         }
                     }
                     if hit {
@@ -349,9 +361,10 @@ async fn c17_lease(ctx: Ctx, lease_s: u32, silent_after_ms: i64, ignore: bool) {
 pub fn c17(args: &Args) -> Vec<Scenario> {
     let b = if args.thorough() { 3 } else { 2 };
     let mut v = vec![];
-    for (d1, d2, same) in [(0, 0, true), (0, 1, true), (0, 0, false)] {
+    for (d1, d2, mode) in [(0, 0, 0u8), (0, 1, 0), (0, 0, 1), (0, 0, 2)] {
+        let same = ["true", "false", "remote-untagged"][mode as usize];
         v.push(
-            Scenario::new(format!("C17.isolation[d={d1}/{d2},same_tag={same}]"), b, move |ctx| c17_isolation(ctx, d1, d2, same)).cfg(|c| {
+            Scenario::new(format!("C17.isolation[d={d1}/{d2},same_tag={same}]"), b, move |ctx| c17_isolation(ctx, d1, d2, mode)).cfg(|c| {
                 c.shared_multicast = true;
                 c.horizon_ms = 60_000;
             }),
